@@ -1133,6 +1133,9 @@ enum CloseKind {
     /// main output and all HTLC outputs but one (the first or the last in output order) swept
     HolderAllButOne(bool),
     CpAllButOne(bool),
+    /// the holder's commitment: main output and every HTLC output spent by first-level HTLC
+    /// transactions (with a fee input in front, behind, or none), whose outputs stay unswept
+    HolderFirstLevelOnly(u8),
 }
 
 #[derive(Clone, Debug)]
@@ -1168,7 +1171,7 @@ fn tx_sel() -> impl Strategy<Value = TxSel> {
         1 => c.clone().prop_map(|c| TxSel::CpRevoked { c }),
         5 => (c.clone(), 0u8..2).prop_map(|(c, salt)| TxSel::SweepOurs { c, salt }),
         1 => c.clone().prop_map(|c| TxSel::SweepTheirs { c }),
-        4 => (c.clone(), proptest::collection::vec(any::<u16>(), 1..3), prop::bool::weighted(0.1), 0u8..2).prop_map(|(c, which, merge, salt)| TxSel::HtlcSpend { c, which, fee: FeePos::None, merge, salt }),
+        4 => (c.clone(), proptest::collection::vec(any::<u16>(), 1..3), prop::bool::weighted(0.1), 0u8..2, prop_oneof![3 => Just(FeePos::None), 1 => Just(FeePos::First), 1 => Just(FeePos::Last)]).prop_map(|(c, which, merge, salt, fee)| TxSel::HtlcSpend { c, which, fee, merge, salt }),
         3 => (c.clone(), any::<u16>(), 0u8..2).prop_map(|(c, k, salt)| TxSel::SecondLevel { c, k, salt }),
         1 => (0u8..6).prop_map(|n| TxSel::Noise { n }),
     ]
@@ -1205,6 +1208,7 @@ fn life_cycle() -> impl Strategy<Value = Vec<Op>> {
         1 => Just(CloseKind::CpUnswept),
         2 => any::<bool>().prop_map(CloseKind::HolderAllButOne),
         2 => any::<bool>().prop_map(CloseKind::CpAllButOne),
+        3 => (0u8..3).prop_map(CloseKind::HolderFirstLevelOnly),
     ];
     let forget_at = prop_oneof![
         2 => Just(ForgetAt::Never),
@@ -1278,6 +1282,14 @@ fn life_cycle() -> impl Strategy<Value = Vec<Op>> {
                             let snd: Vec<TxSel> = if holder { (0..m).map(|j| TxSel::SecondLevel { c, k: 0, salt: j as u8 }).collect() } else { vec![] };
                             (Some(commit), vec![first, snd])
                         }
+                        CloseKind::HolderFirstLevelOnly(fp) => {
+                            let fee = match fp % 3 { 0 => FeePos::None, 1 => FeePos::First, _ => FeePos::Last };
+                            let mut first = vec![TxSel::SweepOurs { c, salt: 0 }];
+                            if n_htlc > 0 {
+                                first.push(TxSel::HtlcSpend { c, which: vec![0; n_htlc], fee, merge: false, salt: 0 });
+                            }
+                            (Some(TxSel::HolderCommit { c }), vec![first])
+                        }
                         CloseKind::HolderUnswept => (Some(TxSel::HolderCommit { c }), vec![]),
                         CloseKind::CpUnswept => (Some(TxSel::CpCommit { c }), vec![]),
                     };
@@ -1318,7 +1330,7 @@ fn life_cycle() -> impl Strategy<Value = Vec<Op>> {
             }
             ops.push(Op::Bury { k, rel });
             // a unilateral close whose outputs are not all swept grows old (beyond 2016 blocks)
-            if aged && matches!(kind, CloseKind::HolderMainOnly | CloseKind::CpMainOnly | CloseKind::HolderUnswept | CloseKind::CpUnswept | CloseKind::HolderAllButOne(_) | CloseKind::CpAllButOne(_)) {
+            if aged && matches!(kind, CloseKind::HolderMainOnly | CloseKind::CpMainOnly | CloseKind::HolderUnswept | CloseKind::CpUnswept | CloseKind::HolderAllButOne(_) | CloseKind::CpAllButOne(_) | CloseKind::HolderFirstLevelOnly(_)) {
                 ops.push(Op::EmptyMany { n: (2016 - 100 + 4 + rel as i32) as u16 });
             }
             // a reorg of the burying blocks before the signer is asked to prune: a few blocks, or
